@@ -112,7 +112,8 @@ theorem match_locality {chk : Constraint → Bytes → Bool} {cfg : Config} {use
     have hok := parseRoute_segsOK hpp s0 (by rw [hs]; exact List.mem_cons_self ..) hc
     have hpre := parseRoute_head_const hpp hs hc
     exact routeMatch_locality hm hs hc hok.1 hpre
-      (by simp only [beq_iff_eq]; exact id) (by simp only [beq_iff_eq]; exact id) h3 hno
+      (by simp only [beq_iff_eq]; exact id)
+      (by simp only [beq_iff_eq]; intro h; rw [h]; rfl) h3 hno
   · cases hr
 
 /-- The tree key the router computes equals the first 3 bytes of the detection path under the same
